@@ -152,9 +152,17 @@ fn agg_stmt(r: &mut Rng, t: &TableSpec, nullkeys: bool) -> Option<Stmt> {
     Some(Stmt { sql, plan, stratum: if nullkeys { "agg_nullkeys" } else { "agg" }, kind: "agg", neutral })
 }
 
-fn make_case(cat: &Catalog, s: &Stmt, cfgs: &[ExecCfg]) -> Value {
+fn make_case(cat: &Catalog, s: &Stmt, cfgs: &[ExecCfg], bytes: usize, batches: usize) -> Value {
+    // which spill regime each limit aims at (estimated from the input size: the engine does not expose its run count)
+    let mut tags: Vec<String> = vec![];
+    for c in cfgs { if let Some(l) = c.mem_limit {
+        let thr = (l as f64 * 0.8) as usize;
+        let runs = if thr == 0 { batches } else { ((bytes + thr - 1) / thr).min(batches.max(1)) };
+        tags.push(if bytes <= thr { "regime:fits".into() } else if runs <= 1 { "regime:one_run".into() } else if runs <= 8 { "regime:runs<=8".into() } else { "regime:multi_pass".to_string() });
+    } }
+    tags.sort(); tags.dedup();
     let mut c = json!({"kind": s.kind, "stratum": s.stratum, "prop": "C08", "mode": "meta", "sql": s.sql, "plan": s.plan, "tables": cat.tables_json(), "cat": cat.meta_json(),
-        "tags": [], "engine_defined": false, "cfgs": cfgs.iter().map(|c| c.name.clone()).collect::<Vec<_>>()});
+        "tags": tags, "engine_defined": false, "cfgs": cfgs.iter().map(|c| c.name.clone()).collect::<Vec<_>>()});
     if let Some((nsql, nplan)) = &s.neutral { c["neutral_sql"] = json!(nsql); c["neutral_plan"] = nplan.clone(); }
     c
 }
@@ -194,7 +202,8 @@ pub fn main(o: &Opts) {
         let Some(stmt) = stmt else { continue };
         let bytes = match stmt.kind { "join" => table_bytes(&cat.tables[0]).min(table_bytes(&cat.tables[1])), _ => table_bytes(&cat.tables[0]) };
         let cfgs = ladder(&mut r, bytes);
-        let case = make_case(&cat, &stmt, &cfgs);
+        let nb = cat.tables[0].cuts.len().max(1);
+        let case = make_case(&cat, &stmt, &cfgs, bytes, nb);
         let imp = run_case(&case);
         emit(case, imp);
         n += 1;
